@@ -1,0 +1,13 @@
+//go:build verif
+
+// Contracts for the deductive verifier in /verif (comment-only file; it
+// contributes no code to any build). Syntax: see /verif/DESIGN.md.
+package digest
+
+// Trivial accessors are inlined at their call sites.
+//@ func (Set).Items
+//@   inline
+//@ func (Set).Length
+//@   inline
+//@ func (Set).Empty
+//@   inline
